@@ -1,5 +1,7 @@
 //! C01 — completeness: honest proofs of true claims are accepted (E1 grid, slices A, B, C).
+use crate::alpha::*;
 use crate::rec::Rec;
+use crate::schemes::*;
 use crate::sch::*;
 use crate::scope::*;
 use crate::tr::*;
@@ -105,11 +107,96 @@ pub fn slice_b_polys<S: Sch>(cfg: &KeyCfg, seed: u64) -> Vec<LP<S>> {
         Fam::Mv => shapes.iter().find(|(m, _)| m.starts_with("mono[1,1")).map(|(_, p)| p.clone()).unwrap_or(dense.clone()),
     };
     let hid = if S::HIDING { Some(1) } else { None };
+    // the second bounded polynomial carries a DIFFERENT served bound: two shifts at one point
+    let bound2 = if S::BOUNDS {
+        if S::NAME == "IPA" {
+            Some(5)
+        } else {
+            cfg.bounds.as_ref().map(|b| *b.last().unwrap())
+        }
+    } else {
+        None
+    };
     vec![
         lp::<S>("p0", dense, None, None),
         lp::<S>("p1", second, bound, hid),
-        lp::<S>("p2", zero, bound, None),
+        lp::<S>("p2", zero, bound2, None),
     ]
+}
+
+/// Slice D (degree-bound schemes): three non-zero polynomials with pairwise different degree bounds
+/// (or none) opened together at one point, in every order of the prover's lists, every hiding
+/// pattern, through `open`/`check` and through a one-label batch.
+pub fn slice_d_run<S: Sch>(rec: &mut Rec)
+where
+    S: crate::checks::c04::UniSch,
+{
+    if !S::BOUNDS {
+        return;
+    }
+    let cfg = if S::NAME == "IPA" { KeyCfg::uni(7, 7, 1, None) } else { KeyCfg::uni(7, 6, 1, Some(vec![2, 4, 6])) };
+    let keys = match build_keys::<S>(&cfg, rec.seed) {
+        Ok(k) => k,
+        Err(_) => return,
+    };
+    let r = rho_stream::<S::F>(rec.seed, 31, 12);
+    let z = S::point(rho::<S::F>(rec.seed, 6));
+    let bsets: Vec<[Option<usize>; 3]> = vec![[Some(2), Some(4), Some(6)], [Some(6), Some(2), None], [Some(4), Some(4), Some(2)], [None, Some(6), Some(4)]];
+    let perms = permutations(3);
+    for (bi, bs) in bsets.iter().enumerate() {
+        for hmask in 0..8u32 {
+            for (pi, perm) in perms.iter().enumerate() {
+                let id = format!("{}/D/{}/bounds={:?}/hiding={:03b}/order={}", S::NAME, cfg.id(), bs, hmask, pi).replace(' ', "");
+                if !rec.take(&id) {
+                    continue;
+                }
+                rec.dim("scheme", S::NAME);
+                let _ = bi;
+                let degs = [2usize, 1, 2];
+                let polys: Vec<LP<S>> = (0..3)
+                    .map(|i| {
+                        let d = degs[i].min(bs[i].unwrap_or(usize::MAX));
+                        lp::<S>(&format!("d{}", i), S::poly(&r[4 * i..4 * i + d + 1]), bs[i], if hmask >> i & 1 == 1 { Some(1) } else { None })
+                    })
+                    .collect();
+                let c = match commit_set::<S>(&keys, polys, rec.seed, 0) {
+                    Ok(c) => c,
+                    Err(o) => {
+                        fail(rec, S::NAME, "commit", "several-bounds", &id, format!("in-domain commit failed: {}", o.short()));
+                        continue;
+                    }
+                };
+                rec.op(3);
+                match open_single::<S>(&keys, &c, perm, &z, 0, rec.seed, 0) {
+                    Ok(s1) => {
+                        let cr: Vec<&LCm<S>> = perm.iter().map(|i| &c.comms[*i]).collect();
+                        let d = check_single::<S>(&keys, &cr, &z, &s1.values, &s1.proof, 0, rec.seed, 0);
+                        rec.class(d.class());
+                        rec.obs(&format!("{}|D|{}|{}", S::NAME, hmask, d.class()));
+                        if !d.accepted() {
+                            fail(rec, S::NAME, "check", "several-bounds-at-one-point", &id, format!("honest proof not accepted: {}", d.short()));
+                        }
+                    }
+                    Err(o) => fail(rec, S::NAME, "open", "several-bounds-at-one-point", &id, format!("in-domain open failed: {}", o.short())),
+                }
+                let mut qs: QuerySet<S::Pt> = QuerySet::new();
+                for p in c.polys.iter() {
+                    qs.insert((p.label().clone(), ("z".to_string(), z.clone())));
+                }
+                match open_batch::<S>(&keys, &c, perm, &qs, 0, rec.seed, 0) {
+                    Ok(b) => {
+                        let cr: Vec<&LCm<S>> = c.comms.iter().collect();
+                        let d = check_batch::<S>(&keys, &cr, &b.qs, &b.evals, &b.proof, 0, rec.seed, 0);
+                        rec.class(d.class());
+                        if !d.accepted() {
+                            fail(rec, S::NAME, "batch_check", "several-bounds-at-one-point", &id, format!("honest batch proof not accepted: {}", d.short()));
+                        }
+                    }
+                    Err(o) => fail(rec, S::NAME, "batch_open", "several-bounds-at-one-point", &id, format!("in-domain batch_open failed: {}", o.short())),
+                }
+            }
+        }
+    }
 }
 
 /// The three point labels of slice B: `a` and `b` share one value.
@@ -269,5 +356,8 @@ pub fn run(rec: &mut Rec) {
         slice_a_run::<SMar377>(rec, 3);
         slice_a_run::<SSon377>(rec, 3);
     }
+    slice_d_run::<SMar>(rec);
+    slice_d_run::<SSon>(rec);
+    slice_d_run::<SIpa>(rec);
     crate::special::c01_special(rec);
 }
